@@ -469,6 +469,15 @@ func (e *Env) ident(name string) Val {
 	if name == "nil" {
 		return Val{T: "$nil", S: "$nil"}
 	}
+	if name == "$seen" && e.act != nil {
+		// the set of keys already delivered by the (only) map iterator of this function
+		for _, it := range e.act.iters {
+			if !it.isStr {
+				return Val{T: e.g.stateGet(e.st, it.seen), S: e.g.w.heapVars[it.seen]}
+			}
+		}
+		e.fail("$seen used without a map range loop (or before the range starts)")
+	}
 	if name == "$iter" && e.act != nil {
 		if v, ok := e.act.lookupLocal("rangeint.iter", e.at, e.atIdx, e.phiOv); ok {
 			return v
